@@ -57,14 +57,23 @@ def parse_spec(s):
     return {"fill": fill, "align": align, "width": w, "trunc": trunc}
 
 
-def tokenize(p):
-    """-> list of ('lit', text) | ('ph', body).  Literal text is split into pieces at every character that stems from a '%' construct
-    ('%%', the '%' of an unterminated '%{'): whether a remove-after count that exceeds one piece continues into the next is not
-    documented, so evaluate() yields both readings."""
+def tokenize(p, pct="own", unterm="own"):
+    """-> list of ('lit', text) | ('ph', body).  Where one run of literal text ends matters to "remove M characters after": whether a
+    count that exceeds the literal continues into the next one is not documented, and neither is whether a character that stems from a
+    '%' construct ('%%', the '%' of an unterminated '%{') ends the run.  evaluate() is therefore run over every reading:
+    pct    'own'  - the '%' of '%%' is a piece of its own        'join' - it is part of the surrounding literal text
+    unterm 'own'  - the '%' of an unterminated '%{' is a piece of its own
+           'head' - it starts a new piece that continues with the text after it
+           'join' - it is part of the surrounding literal text"""
     toks = []
     lit = []
     i = 0
     n = len(p)
+
+    def flush():
+        if lit:
+            toks.append(("lit", "".join(lit)))
+            del lit[:]
     while i < n:
         c = p[i]
         if c == "%" and i + 1 < n:
@@ -72,30 +81,31 @@ def tokenize(p):
             if d == "{":
                 j = p.find("}", i + 2)
                 if j == -1:
-                    # an unterminated "%{" is literal text; it is a piece of its own (see the remove-after accept-set in evaluate)
-                    if lit:
-                        toks.append(("lit", "".join(lit)))
-                        lit = []
-                    toks.append(("lit", "%"))
+                    if unterm == "own":
+                        flush()
+                        toks.append(("lit", "%"))
+                    elif unterm == "head":
+                        flush()
+                        lit.append("%")
+                    else:
+                        lit.append("%")
                     i += 1
                     continue
-                if lit:
-                    toks.append(("lit", "".join(lit)))
-                    lit = []
+                flush()
                 toks.append(("ph", p[i + 2:j]))
                 i = j + 1
                 continue
             if d == "%":
-                if lit:
-                    toks.append(("lit", "".join(lit)))
-                    lit = []
-                toks.append(("lit", "%"))
+                if pct == "own":
+                    flush()
+                    toks.append(("lit", "%"))
+                else:
+                    lit.append("%")
                 i += 2
                 continue
         lit.append(c)
         i += 1
-    if lit:
-        toks.append(("lit", "".join(lit)))
+    flush()
     return toks
 
 
@@ -198,7 +208,7 @@ def evaluate(pattern, msg, opts):
     """msg: dict(type(int), line, file/func/cat (bytes|None), text, attrs(dict), time_ms, thread_id, steady_ms, func_clean)
     opts: dict(model='u'|'c', missing='echo'|'empty', time_ms=bool, short_n='none'|'all')
     returns the output string; raises Corner for inputs outside the documented core."""
-    toks = tokenize(pattern)
+    toks = opts["toks"] if "toks" in opts else tokenize(pattern)
     out = ""
     cond = None
     pending_after = 0
@@ -391,9 +401,16 @@ OPTION_SPACE = [dict(model=m, missing=mi, time_ms=t, short_n=sn, after_over=ao)
 def accept_set(pattern, msg):
     """-> (set of acceptable outputs, None) or (None, corner_reason)"""
     outs = set()
+    tokenizations = []
+    for pct in ("own", "join"):
+        for unterm in ("own", "head", "join"):
+            t = tokenize(pattern, pct, unterm)
+            if t not in tokenizations:
+                tokenizations.append(t)
     try:
-        for o in OPTION_SPACE:
-            outs.add(evaluate(pattern, msg, o))
+        for t in tokenizations:
+            for o in OPTION_SPACE:
+                outs.add(evaluate(pattern, msg, dict(o, toks=t)))
     except Corner as c:
         return None, str(c)
     return outs, None
